@@ -73,7 +73,12 @@ void Reference::repeat_and_transform(Array<Vec2>& point_array) const {
     Array<Vec2> offsets = {};
 
     if (repetition.type != RepetitionType::None) {
-        repetition.get_extrema(offsets);
+        if (repetition.type == RepetitionType::Explicit) {
+            // The 4 axis-extreme offsets are not enough for the convex hull of an arbitrary list
+            repetition.get_offsets(offsets);
+        } else {
+            repetition.get_extrema(offsets);
+        }
         point_array.ensure_slots((offsets.count - 1) * num_points);
         point_array.count *= offsets.count;
     } else {
